@@ -159,7 +159,7 @@ def check(rep):
                     S = Fr(rnd.choice([1000, 2048, 600, 51200]))
                     rel = dyadic_partition(rnd, n)
                     vals = [(k, (r * S / 100 if k == "a" else r if k == "r" else None)) for k, r in zip(shape, rel)]
-                    pert = rnd.choice(["none", "none", "one", "pct_over"])
+                    pert = rnd.choice(["none", "none", "one", "pct_over", "zero_pct"])
                     if pert == "one" and n > 0:
                         j = rnd.randrange(n)
                         if vals[j][0] != "n":
@@ -169,6 +169,18 @@ def check(rep):
                         if rs:
                             j = rnd.choice(rs)
                             vals[j] = ("r", min(Fr(100), vals[j][1] + rnd.choice([25, 50, 75])))
+                    elif pert == "zero_pct":
+                        # a component declared with 0 %: a written percentage like any other.  Its former share goes to another component (the
+                        # specification stays solvable), or nowhere (the rest must then be inferred, or the percentages no longer sum to 100)
+                        rs = [j for j, (k, v) in enumerate(vals) if k == "r"]
+                        if rs:
+                            j = rnd.choice(rs)
+                            share = vals[j][1]
+                            vals[j] = ("r", Fr(0))
+                            others = [i for i in range(n) if i != j and vals[i][0] != "n"]
+                            if others and rnd.random() < 0.6:
+                                i = rnd.choice(others)
+                                vals[i] = (vals[i][0], vals[i][1] + (share if vals[i][0] == "r" else share * S / 100))
                     smw = None if smode == "none" else (S if smode == "consistent" else S * rnd.choice([Fr(2), Fr(3, 4)]))
                     cases.append((vals, smw))
     lines = [model_line(c, s) for c, s in cases]
@@ -218,6 +230,11 @@ def check(rep):
                 if not ok or abs(sum(c[1] for c in io[2]) - 100) > 1e-6:
                     rep.fail("oracle", f"accepted with values that are not the solution: {text}", ident,
                              expected=f"S={float(S)} abs={[float(x) for x in ab]} rel={[float(x) for x in rl]}", observed=str(io)[:300])
+                elif any(r == 0 for r in rl):
+                    # a component with share 0 (written as 0 % or left with a remainder of 0): the property speaks of positive masses and
+                    # percentages; the printed form '.|0.0|' of such a component is an absolute mass of 0, which the notation reads as "no mass
+                    # given".  The solution above is still checked; the print / re-parse clause is not demanded here.
+                    pass
                 else:
                     # user-written values preserved and print -> re-parse keeps all masses
                     import gbigsmiles
